@@ -32,6 +32,8 @@ def run(ctx):
     wire_mul(ctx, facts)
     wire_acc(ctx, facts)
     malsec.mac_validate_guard(ctx, facts, "GUARD-mac")
+    malsec.reveal_impls(ctx, facts, "WHO-reveal")
+    malsec.multiply_impls(ctx, facts, "WHO-multiply")
     malsec.dzkp_validate_path(ctx, facts, "PATH-verdict")
     affine_ids(ctx, facts)
     ctx.assume("detection probability (1/|F|) and algebraic soundness of the MAC scheme are not decided")
